@@ -406,7 +406,49 @@ def p_acceptor(g):
     P.do(c, "run")
     P.do(c, "%s.local" % peer)
     live = [peer]
+    def timer(delay):
+        """context running `delay` ns after the run() that follows starts"""
+        tctx = "h%d" % P.h(); tk = P.nt; P.nt += 1
+        P.do(c, "t%d.expires_after %d" % (tk, delay)); P.do(c, "t%d.wait %s" % (tk, tctx))
+        return tctx
+
     for step in range(rng.choice([1, 2, 3, 4])):
+        if rng.random() < 0.25:
+            # the acceptor gives the endpoint up WHILE connects dialled to it (issued while it was listening) are still
+            # pending inside the same run(): their SYNs in flight or queued un-accepted. Whoever listens afterwards —
+            # the same object re-opened on another (or the same) port, a new acceptor on E — must never be handed
+            # such a connection unless it holds the endpoint that connection was dialled to
+            for _ in range(rng.choice([1, 1, 2])): connect(c)
+            d = rng.choice([0, 1, 1000, 500000, 1000000, 2000000, 5000000, 11000000, 25000000, 70000000])
+            tctx = timer(d)
+            if rng.random() < 0.3: connect(tctx)                    # one more, dialled in the very instant of the kill
+            w = rng.choice(["close", "close0", "destroy", "open " + f])
+            P.do(tctx, "%s.%s" % (a, w))
+            port2 = port if rng.random() < 0.4 else g.ports()
+            b = None
+            if rng.random() < 0.8:
+                c2 = tctx if rng.random() < 0.6 else timer(d + rng.choice([1, 1000, 3000000, 40000000]))
+                if w == "destroy": b = g.opened(c2, "a", srv, f)
+                else:
+                    b = a
+                    if not w.startswith("open") or c2 != tctx: P.do(c2, "%s.open %s" % (b, f))
+                g.bind(c2, b, wild(f) if usewild else sip, port2); P.do(c2, "%s.listen" % b)
+                h = P.h(); peer2 = g.obj(c2, "s", srv)
+                P.do(c2, "%s.accept_ep %s h%d" % (b, peer2, h)); P.do("h%d" % h, "%s.local" % peer2)
+                if rng.random() < 0.6:
+                    # a connect dialled to what b holds now: the only one its accept may complete with
+                    s2 = g.obj(c2, "s", cli); h2 = P.h(); g.eph += 1
+                    P.do(c2, "%s.connect %s h%d" % (s2, ep(Eip, port2), h2)); P.do("h%d" % h2, "%s.local" % s2)
+            P.do(c, "run")
+            for p_ in live: P.do(c, "%s.local" % p_)
+            if b is not None:
+                P.do(c, "%s.local" % b); P.do(c, "%s.local" % peer2)
+                # back to the original endpoint with a fresh acceptor (a still pending accept's peer is left alone)
+                P.do(c, "%s.cancel" % b); P.do(c, "run"); P.do(c, "%s.close" % b)
+            elif w != "destroy" and rng.random() < 0.5:
+                probe_bind(c)                                       # ok: released
+            a = acceptor(c)
+            continue
         x = rng.random()
         if x < 0.3 and live:
             # the accepted socket goes away; the acceptor keeps its binding and keeps accepting
